@@ -87,7 +87,7 @@ func sectorIV(sector int64) []byte {
 type encSpec struct {
 	Kind      string     `json:"kind"`              // redump | 3k3y-enc | 3k3y-dec | plain
 	Key       string     `json:"key"`               // hex disc key the encrypted sectors are encrypted under
-	Regions   [][2]int64 `json:"regions"`           // the table written to sector 0: plain regions <start, end>
+	Regions   [][2]int64 `json:"regions"`           // the table written to sector 0: plain regions <first, last sector>
 	RawCount  *int64     `json:"rawCount"`          // override of the count field (malformed tables)
 	Sectors   int64      `json:"sectors"`           // image length in sectors
 	ExtraLen  int64      `json:"extraLen"`          // additional bytes after the last full sector
@@ -144,8 +144,9 @@ func buildEncImage(sp encSpec) (*encImage, error) {
 	raw := append([]byte{}, plain...)
 	enc := sp.EncFrom
 	if enc == nil && sp.Kind != "plain" && sp.Kind != "3k3y-dec" {
+		// (region bounds are first and last sector, inclusive: what lies strictly between two regions is encrypted)
 		for i := 1; i < len(sp.Regions); i++ {
-			enc = append(enc, [2]int64{sp.Regions[i-1][1], sp.Regions[i][0]})
+			enc = append(enc, [2]int64{sp.Regions[i-1][1] + 1, sp.Regions[i][0]})
 		}
 	}
 	if len(key) == 16 {
